@@ -210,7 +210,7 @@ def _lits(body, kinds=("str", "char", "fmt")):
 def _starts_with_lits(body):
     out = []
     for n in hirq.walk(body.hir["body"]):
-        if n["e"] == "mcall" and n["name"] == "starts_with" and n["args"]:
+        if n["e"] == "mcall" and n["name"] in ("starts_with", "strip_prefix") and n["args"]:
             a = hirq.strip(n["args"][0])
             if a.get("e") == "lit":
                 out.append((a["lit"], n["ln"]))
@@ -371,6 +371,27 @@ def cli2(ctx):
         for pat, it, body, ln in for_loops(s):
             top_loops.append((s, pat, it, body, ln))
             break
+    # a validation helper called as a top-level statement `self.h(&conf, ..)?;` contributes its own top-level loops
+    rename = {}
+    for s in stmts:
+        s0 = hirq.strip(s)
+        if not (s0.get("e") == "match" and str(s0.get("src", "")).startswith("TryDesugar")):
+            continue
+        sc = hirq.strip(s0["scrut"])
+        inner = hirq.strip(sc["args"][0]) if sc.get("e") == "call" and sc.get("args") else {}
+        if inner.get("e") != "mcall" or not (inner.get("def") or "").startswith(P):
+            continue
+        hb = bn.body(inner["def"])
+        if hb is None or not hb.hir:
+            continue
+        hstmts = list(hb.hir["body"].get("stmts", []))
+        for hs in hstmts:
+            if hirq.strip(hs).get("src") == "ForLoopDesugar":
+                for pat, it, body, ln in for_loops(hs):
+                    top_loops.append((hs, pat, it, body, ln))
+                    break
+        for pname, a in zip(hb.param_names[1:], inner["args"]):
+            rename[pname] = arg_name(a)
     dangling = cycle = None
     for s, pat, it, body, ln in top_loops:
         if hirq.strip(s).get("src") != "ForLoopDesugar":
@@ -400,6 +421,8 @@ def cli2(ctx):
             adaptors.append(e)
             e = hirq.strip(e["recv"])
         base = expr_name(e)
+        if base[0] == "local" and base[1] in rename:
+            base = ("local", rename[base[1]])
         ret_name = arg_name(hirq.strip(tail)["args"][0]) if ok_tail else None
         bad = []
         for a in adaptors:
